@@ -595,6 +595,10 @@ def ite(c, a, b):
 
 def py_eq(a, b):
     """Python `==` lifted to symbolic values; returns bool or SBool."""
+    if getattr(a, "__pyvc_symbolic__", False):
+        return a.__eq__(b)
+    if getattr(b, "__pyvc_symbolic__", False):
+        return b.__eq__(a)
     if isinstance(a, Sym):
         return a.__eq__(b)
     if isinstance(b, Sym):
